@@ -40,6 +40,20 @@ CHECKS = {
         note="Trusted: Coq kernel + vm_compute; hand-written model Metrics/ErrorRate.v tied by correspondence; float32 result of compute() "
              "compared with the correctly rounded exact ratio; int64 counters assumed not to overflow. Closed under the global context.",
         technique="Coq proof (induction over operation histories, refinement to a pair of counts) + exhaustive/random history correspondence by vm_compute"),
+    "C17": dict(
+        text="Coq theorems generic in the value type and in what each stage computes: a sequential pipeline calls every stage exactly once in "
+             "declared order on its predecessor's output (any stage list; DeepJSCC and channel-code constructor orders); remove_step deletes "
+             "exactly one position and keeps the order of the rest; for EVERY completion order (any permutation of the futures) and distinct "
+             "names the parallel model stores each result under its own name and returns / aggregates in declared order (right-hand side "
+             "independent of the permutation); branching runs exactly the first branch in insertion order whose condition holds, evaluates no "
+             "later condition, else the default, else an error, and branch names stay distinct under every edit; the feedback model performs "
+             "exactly max_iterations rounds of six calls in order; MAC user i is encoded by encoder i. Model tied to the real classes by "
+             "exhaustive add/remove histories, all n! forced completion orders (n<=4 quick, 5 thorough), random branching histories.",
+        design="6/C17",
+        note="Trusted: Coq kernel + vm_compute; hand-written model Pipe/Pipeline.v tied by correspondence; A-threads: a ThreadPoolExecutor run is "
+             "characterised by the completion order of its futures, which the harness forces from outside with Events (the executor itself is "
+             "not modelled). Closed under the global context.",
+        technique="Coq proof (induction over stage lists / histories, permutation-independence lemma over association lists) + forced-schedule correspondence by vm_compute"),
 }
 NOT_YET = {}
 
